@@ -53,7 +53,8 @@ let () = run_lines (fun toks ->
   match toks with
   | "params" :: _ -> join [sz Model.giv_multiplier; sz Model.giv_modulo; sz Model.giv_halfmod; string_of_bool Model.giv_ctor_normalises;
                            string_of_bool Model.giv_randiter_clamps; string_of_bool Model.poly_random_resizes;
-                           string_of_bool Model.randiter_assign_copies_size]
+                           string_of_bool Model.randiter_assign_copies_size;
+                           string_of_bool Model.sized_draws_guard_small_sizes; string_of_bool Model.poly_random_guards_negative_degree]
   | "lcg" :: form :: seed :: n :: rest ->
     let st = state_of_seed (zs seed) (match rest with s :: _ -> Some s | [] -> None) in
     let n = int_of_string n in
@@ -260,6 +261,78 @@ let () = run_lines (fun toks ->
       out := (sz x ^ ":" ^ sz (Model.Z.div r big) ^ "," ^ sz (Model.Z.modulo r big)) :: !out; s := x
     done;
     join (List.rev !out) ^ " | " ^ sz !s
+  | "edge" :: what :: kind :: p :: seed :: size :: bits :: rest ->
+    (* the sized draws with their domain (Model3 Part I): VAL ... | CRASH | NORETURN *)
+    let size_s = size in
+    let p = zs p and size = zs size and bits = zs bits in
+    let st = Model.giv_ctor_nz (zs seed) in
+    let show1 = (function Model.Val (a, s') -> "VAL " ^ sz a ^ " | " ^ sz s' | Model.Crash -> "CRASH" | Model.NoReturn -> "NORETURN") in
+    (match what, kind with
+     | "rnd", ("mod" | "bal") -> show1 (Model.ring_random_size_src (init_of kind p) size st)
+     | "nz", ("mod" | "bal") -> show1 (Model.ring_nonzerorandom_size_src fuel_nz (init_of kind p) size st)
+     | "rnd", "gfq" -> show1 (Model.gfq_random_src bits p size st)
+     | "nz", "gfq" -> show1 (Model.gfq_nonzerorandom_src bits p size st)
+     | "poly", _ ->
+       let form = (match rest with f :: _ -> f | [] -> "size") in
+       let n = int_of_string size_s in
+       let q = (match form with "like" | "nzlike" -> Model.PLike (nat n) | "deg" | "nzdeg" -> Model.PSize (nat n) | _ -> Model.PSize (nat n)) in
+       if kind = "gfq" then begin
+         (* table-field coefficients: same request rule (Model.preq_ok, the guard flag), the total GFq loop *)
+         if Model.preq_ok q then (let (cs, s') = Model.poly_random_gfq_into bits p (Model.preq_degree q) [] st in
+                                  "VAL " ^ string_of_int (List.length cs) ^ " ; " ^ join (List.map sz cs) ^ " | " ^ sz s')
+         else if Model.poly_random_guards_negative_degree then (let (cs, s') = Model.poly_random_gfq_into bits p Model.O [] st in
+                                  "VAL " ^ string_of_int (List.length cs) ^ " ; " ^ join (List.map sz cs) ^ " | " ^ sz s')
+         else "CRASH"
+       end else
+       (match Model.poly_request_src fuel_nz (init_of kind p) q [] st with
+        | Model.Val (cs, s') -> "VAL " ^ string_of_int (List.length cs) ^ " ; " ^ join (List.map sz cs) ^ " | " ^ sz s'
+        | Model.Crash -> "CRASH" | Model.NoReturn -> "NORETURN")
+     | _ -> failwith "edge")
+  | "gmpshare" :: cls :: rest ->
+    (* two GMP-based iterators over the ONE process-wide generator (Model3 Part J); the stream of each seeding comes from the trace *)
+    let (args, tr) = split_bar [] rest in
+    let a = Array.of_list args in
+    (* trace -> segments by seed value *)
+    let segs : (Model.z * tr list ref) list ref = ref [] and cur = ref None in
+    List.iter (fun tok -> let t = parse_tr tok in
+      if t.kind = 's' then begin let r = ref [] in segs := (t.arg, r) :: !segs; cur := Some r end
+      else (match !cur with Some r -> r := t :: !r | None -> ())) tr;
+    let seg_of v = (try Array.of_list (List.rev !(List.assoc v (List.rev !segs |> List.sort (fun (_, x) (_, y) -> compare (List.length !y) (List.length !x))))) with Not_found -> [||]) in
+    let bad = ref "" in
+    let strm (v : Model.z) (i : Model.nat) (q : Model.req) : Model.z =
+      let sg = seg_of v and k = int_of_nat i in
+      if k >= Array.length sg then (if !bad = "" then bad := Printf.sprintf "MODEL-ASKS-MORE(seed %s request %d)" (sz v) k; z0)
+      else begin
+        let t = sg.(k) in
+        (match q with
+         | Model.QBits n -> if t.kind <> 'b' || t.arg <> n then (if !bad = "" then bad := Printf.sprintf "REQ-MISMATCH(seed %s %d)" (sz v) k)
+         | Model.QRange m -> if t.kind <> 'm' || t.arg <> m then (if !bad = "" then bad := Printf.sprintf "REQ-MISMATCH(seed %s %d)" (sz v) k));
+        t.ans
+      end in
+    let mk seed = (match cls with
+      | "rii" -> (match Model.rii_ctor_seed [] (zs seed) with Some v -> Model.gobj_rii true false v (zs a.(3)) | None -> failwith "seed")
+      | _ -> (match Model.mii_ctor [] (zs seed) z0 (zs a.(3)) with Some (v, keep) -> Model.gobj_mii v keep (zs a.(3)) | None -> failwith "seed")) in
+    let oA = mk a.(0) and oB = mk a.(1) and k = int_of_string a.(2) in
+    let rep o n = List.init n (fun _ -> Model.GDrawOf o) in
+    let g0 = { Model.g_seed = z0; Model.g_pos = Model.O } in
+    let run ops = join (List.map sz (fst (Model.g_run strm g0 ops))) in
+    let r1 = run (Model.GNew oA :: rep oA (2 * k)) in
+    let r2 = run (Model.GNew oA :: rep oA k @ Model.GNew oB :: rep oA k) in
+    let r3 = run (Model.GNew oA :: Model.GNew oB :: rep oA k) in
+    r1 ^ " / " ^ r2 ^ " / " ^ r3 ^ (if !bad <> "" then " ; " ^ !bad else "")
+  | "intN" :: op :: ap :: rest ->
+    (* native-integer overloads through Model3 Part K: the model resolves the overload (bit-size semantics) itself *)
+    let (args, tr) = split_bar [] rest in
+    let (orc, bad, used) = mk_orc tr in
+    let fuel = nat (List.length tr + 2) in
+    let a = Array.of_list args in
+    let ap = ap_of ap in
+    let res = (match op with
+      | "lt" -> sz (fst (Model.random_lessthan_any orc ap (Model.BNative (zs a.(0), zs a.(1))) Model.O))
+      | "nz" -> optz (Model.nonzerorandom_any orc fuel ap (Model.BNative (zs a.(0), zs a.(1))) Model.O)
+      | "bt" -> optz (Model.random_between_any orc fuel true (zs a.(0)) (zs a.(1)) Model.O)
+      | _ -> failwith "intN op") in
+    fin res bad used (List.length tr)
   | "riiseed" :: seed :: _ -> (match Model.rii_ctor_seed [] (zs seed) with None -> "NONE" | Some v -> sz v)
   | "polyseq" :: kind :: p :: seed :: bits :: r0len :: ops ->
     (* one destination reused; op = letter + number (see harness); E<order> X<order>,<s> B<size> are the Extension front ends *)
